@@ -22,7 +22,7 @@ ASSUMPTIONS = ['a released thread is waited for until it is gone, so '
                '"alive at test end" is deterministic',
                'reported threads are mapped to ledger entries by ident among '
                'the threads alive at that moment']
-FLOORS = {'tests_judged': 1500, 'leaks_expected': 400,
+FLOORS = {'skipped_tests_judged': 60, 'tests_judged': 1500, 'leaks_expected': 400,
           'leak_across_later_test': 200, 'ident_reuse_histories': 30,
           'ignored_threads': 100, 'dummy_threads': 200}
 BATCH_TIMEOUT = 300
@@ -96,7 +96,17 @@ def cases(tier, seed):
                                                 'ignored', 'midign']),
                             'rel': rel})
             hist.append(ths)
+        skips = []
+        if rng.random() < 0.45:
+            # tests skipped by decorator: they start nothing, run nothing,
+            # and must have nothing reported
+            skips = [i for i in range(1, L) if rng.random() < 0.4]
+            for i in skips:
+                for j in range(L):
+                    hist[j] = [t for t in hist[j] if t['rel'][0] != i]
+                hist[i] = []
         out.append({'idx': idx, 'hist': hist, 'reuse': rng.random() < 0.3,
+                    'skips': skips,
                     'ign': rng.choice([['ign-'], ['ign-', 'Dummy-'],
                                        ['ign-.*\\d$'], []])})
     return out
@@ -144,6 +154,9 @@ def run_case(case):
             body = body_rel + starts[i]
         else:
             body = starts[i] + body_rel
+        if i in (case.get('skips') or []):
+            tests.append({'name': 'test_%02d' % i, 'kind': 'skip_deco'})
+            continue
         tests.append({'name': 'test_%02d' % i, 'kind': 'pass',
                       'threads_ledger': True, 'actions': other + body})
     layers = [{'name': 'Base', 'kind': 'class', 'bases': [],
@@ -208,6 +221,13 @@ def run_case(case):
     nontrivial = False
     for i in range(L):
         alive = alive_at_end.get(i)
+        if i in (case.get('skips') or []):
+            C('skipped_tests_judged')
+            if reported.get(i):
+                V('threads-reported-for-a-test-that-never-ran',
+                  'threads-reported-for-skipped-test', test=i,
+                  idents=reported[i])
+            continue
         if alive is None:
             V('ledger-missing', 'harness-ledger-missing', test=i)
             continue
